@@ -239,6 +239,7 @@ def run_scenario(sc):
     seed = sc.get('seed', 0)
     S = _install.install(seed, max_steps=sc.get('max_steps', 3000000), max_virtual=sc.get('max_virtual', 3000.0))
     obs = {'ops': [], 'stuck': None, 'thread_excs': [], 'harness_error': None}
+    managers_before = {id(m) for m in list(_install.MANAGERS)}
     try:
         _run(sc, S, obs)
     except sim.Stuck as e:
@@ -272,6 +273,14 @@ def run_scenario(sc):
         leaked = S.shutdown()
         obs['harness_leaked_real_threads'] = leaked
         _install.uninstall()
+        # the pool object is released now: a manager process it started lives exactly as long as its (stand-in) object does
+        try:
+            import gc
+            S = None
+            gc.collect()
+            obs['managers_alive_after_release'] = sum(1 for m in list(_install.MANAGERS) if m.started and id(m) not in managers_before)
+        except Exception as e:  # noqa
+            obs['managers_alive_after_release'] = None
     obs.pop('_open_gens', None)
     obs.pop('_pending_apply', None)
     import json as _json
